@@ -156,7 +156,9 @@ def analyse(repo, budget_s=600, jobs=None):
     _CACHE[key] = res
     try:
         cdir.mkdir(exist_ok=True)
-        for old in sorted(cdir.glob('gen-*.json'))[:-20]:
+        olds = sorted(cdir.glob('gen-*.json'),
+                      key=lambda p: p.stat().st_mtime)
+        for old in olds[:-60]:
             old.unlink()
         tmp = cfile.with_suffix(f'.{os.getpid()}.tmp')
         tmp.write_text(json.dumps(res, default=str))
